@@ -107,6 +107,16 @@ CHECKS = {
             "Rocq proof over reader/writer error-propagation models + exhaustive fault-offset enumeration on the implementation",
             "level is fault enumeration for WebVTT, SSA, TTML, STL (no Coq reader models yet); the SSA writer is exercised only with "
             "metadata present; teletext streams are not generated yet."),
+    "C19": (True,
+            "Theorems: for any function folded over the SORTED keys of a definition map, the result does not depend on the order in "
+            "which the runtime ranges over the map (the mechanism every map-ranging writer uses after the repair); sorting forgets the "
+            "iteration order; the SubRip writer model is a function of the cue list alone. Byte-level determinism and purity of all five "
+            "writers are decided on the implementation: each generated list (0..6 styles with heterogeneous SSA attribute sets, WebVTT "
+            "style blocks spread over several styles, regions, metadata) is written 50 times in-process, once in each of 4 other processes "
+            "and in 6 writer orders, with deep snapshots of the list before/after and a moving clock when the metadata supplies the STL dates.",
+            "Rocq proof of the sorted-range mechanism (partial) + repeated-write / cross-process byte comparison on the implementation",
+            "partial: no Gallina model of the WebVTT/SSA/TTML/STL writers yet, so for them determinism and purity rest on the repeated-write "
+            "comparison (Go's map iteration is randomised per range statement, so 50 repetitions x 5 processes exercise many orders)."),
 }
 
 PENDING = "check not built yet in this session (work in progress; see DESIGN.md section 7 for the plan)"
